@@ -68,6 +68,13 @@ func (b Base) Point() ref.Point {
 			x.Add(x, one)
 			x.Mod(x, ref.P)
 		}
+	case "line-p", "line-q":
+		// two distinct points P, Q on a common line of slope K through P = lift_x(first suitable x >= X)
+		pp, qq := LinePair(gen.B(b.X), b.Odd, int64(b.K))
+		p = pp
+		if b.Kind == "line-q" {
+			p = qq
+		}
 	default:
 		panic("pt: unknown base kind " + b.Kind)
 	}
@@ -336,6 +343,27 @@ func apply(e *secp256k1.Element, st Step, cur ref.Point) (*secp256k1.Element, er
 		return e.Copy(), nil
 	case "set":
 		return secp256k1.Base().Set(e), nil
+	case "target":
+		// re-scale so that one raw coordinate takes a chosen value (J&3 selects x, y or z; J&4: the value is
+		// given as Montgomery limbs, i.e. the stored limbs themselves take the pattern)
+		if !Calibrated() {
+			return e, nil
+		}
+		b := Inspect(e, cur)
+		if !b.RawKnown {
+			return e, nil
+		}
+		tgt := new(big.Int).Mod(gen.B(st.A), ref.P)
+		if st.J&4 != 0 {
+			tgt.Mod(tgt.Mul(tgt, rPInv), ref.P)
+		}
+		coord := []*big.Int{b.X, b.Y, b.Z}[(st.J&3)%3]
+		if tgt.Sign() == 0 || coord.Sign() == 0 {
+			return e, nil
+		}
+		l := ref.FMul(tgt, ref.FInv0(coord))
+		SetRaw(e, ref.FMul(b.X, l), ref.FMul(b.Y, l), ref.FMul(b.Z, l))
+		return e, nil
 	case "rescale":
 		if !Calibrated() {
 			return e, nil
@@ -372,7 +400,7 @@ func Build(s Spec) (*Built, error) {
 // ---------------------------------------------------------------------------------------------------
 
 var (
-	stepsAny  = []string{"addO", "Oadd", "subO", "addsub", "subadd", "dblsub", "negneg", "decenc", "decunc", "copy", "set", "rescale", "rescale", "rescale"}
+	stepsAny  = []string{"addO", "Oadd", "subO", "addsub", "subadd", "dblsub", "negneg", "decenc", "decunc", "copy", "set", "rescale", "rescale", "target", "target"}
 	stepsSlow = []string{"dblhalf", "mulinv"}
 	stepsID   = []string{"id:p-p", "id:p+negp", "id:mul0", "id:kn-k", "id:o-o", "id:decode00", "id:mulnil", "id:wb", "id:wb"}
 )
@@ -393,6 +421,12 @@ func StepGen(identity, allowSlow bool) *rapid.Generator[Step] {
 		switch op {
 		case "rescale", "id:wb":
 			st.A = gen.H(gen.NonZeroInt(ref.P).Draw(t, "lambda"))
+		case "target":
+			st.A = gen.H(gen.NonZeroInt(ref.P).Draw(t, "target"))
+			st.J = rapid.IntRange(0, 2).Draw(t, "coord")
+			if rapid.Bool().Draw(t, "montTarget") {
+				st.J |= 4
+			}
 		case "mulinv", "id:kn-k":
 			st.A = gen.H(gen.NonZeroInt(ref.N).Draw(t, "k"))
 			st.J = rapid.IntRange(0, 5).Draw(t, "j")
@@ -445,4 +479,37 @@ func WithSteps(t *rapid.T, b Base, maxSteps int, allowSlow bool) Spec {
 		s.Steps = append(s.Steps, StepGen(b.Kind == "id", allowSlow).Draw(t, "step"))
 	}
 	return s
+}
+
+// LinePair returns two distinct curve points P != Q lying on a common line of slope m (so that
+// y_Q - y_P = m (x_Q - x_P)), with P = lift_x of the first suitable abscissa >= x0. The abscissae of the three
+// intersections of a line of slope m with the curve sum to m^2 and multiply to (y1 - m x1)^2 - 7.
+func LinePair(x0 *big.Int, odd bool, m int64) (ref.Point, ref.Point) {
+	x := new(big.Int).Mod(x0, ref.P)
+	slope := new(big.Int).Mod(big.NewInt(m), ref.P)
+	for {
+		even, oddP, ok := ref.LiftX(x)
+		if ok {
+			p := even
+			if odd {
+				p = oddP
+			}
+			// x2 + x3 = m^2 - x1 ; x2 x3 = ((y1 - m x1)^2 - 7) / x1
+			sum := ref.FSub(ref.FMul(slope, slope), p.X)
+			c := ref.FSub(p.Y, ref.FMul(slope, p.X))
+			prod := ref.FMul(ref.FSub(ref.FMul(c, c), big.NewInt(7)), ref.FInv0(p.X))
+			disc := ref.FSub(ref.FMul(sum, sum), ref.FMul(big.NewInt(4), prod))
+			if disc.Sign() != 0 && ref.IsSquare(disc) {
+				r := ref.Sqrt(disc)
+				x2 := ref.FMul(ref.FAdd(sum, r), ref.FInv0(big.NewInt(2)))
+				y2 := ref.FAdd(p.Y, ref.FMul(slope, ref.FSub(x2, p.X)))
+				q := ref.Point{X: x2, Y: y2}
+				if ref.OnCurve(x2, y2) && !q.Equal(p) {
+					return p, q
+				}
+			}
+		}
+		x.Add(x, one)
+		x.Mod(x, ref.P)
+	}
 }
